@@ -15,18 +15,20 @@ from harness import c02 as P
 import vlib
 
 LEVEL_TEXT = ('Lean 4 theorems, for all tilt lists, angles, samplings and OPDs: the folded Field.shift is the sum of the individual '
-              'displacements and invariant under permutation; a single angular tilt displaces by (+z*thx/du0*os rows, -z*thy/du1*os cols) '
-              '(per-axis pixel size); a shift s in the DFT kernel equals the phase ramp exp(2 pi i alpha x s) on the input, and for '
-              'alpha = dx*du/(lambda z os) that ramp is the OPD ramp thx*r*dx0 - thy*c*dx1; fit_tilt leaves opd + ramp(recorded)*mask '
-              'unchanged for ANY coefficients (piston never subtracted), per segment and over any history of updates and fits; if the '
-              'coefficients satisfy the normal equations the remaining OPD has zero least-squares tip/tilt and the same piston; a '
-              'first-order dispersive displacement lies on its trace at arc length |d(lambda)|. Partial: see note.')
-LEVEL_NOTE = ('Partial: np.linalg.lstsq returning a solution of the normal equations is a contract (checked numerically by the oracle); '
-              'higher-order DispersiveTilt (scipy leastsq/quad) is not modelled — oracle only; the sample-for-sample equality of the '
-              'propagated representations composes tilt_ramp_equiv with C02 propagateField_sample and is checked end-to-end by the oracle. '
+              'displacements and invariant under permutation; Tilt plane, Wavefront(tilt) and the fit_tilt record give the same shift; '
+              'Tilt(thx, thy) displaces by (+z·thx/du0·os rows, -z·thy/du1·os cols); at C/R a plane with the ramp thx·X·dx0 - thy·Y·dx1 in '
+              'its OPD and the same plane carrying the tilt as metadata (any split) give the same complex value at every output sample both '
+              'evaluate, for alpha = dx·du/(λ z os) (through C02 propagateField_sample); what fit_tilt subtracts is exactly the OPD ramp of '
+              'the Tilt it records, for ANY coefficients, per segment and over any history; if the coefficients solve the normal equations '
+              '(lstsq contract) and the Gram matrix is non-singular, every least-squares fit of the remaining OPD has zero tip/tilt and the '
+              'same piston; first-order dispersive displacement lies on its trace at arc length |d(λ)|. Tilt.__init__/shift, Field.shift units '
+              'and axes, ptt_vector rows, the subtracted rows/coefficients, the recorded indices and the tilt[n::size] stride are regenerated.')
+LEVEL_NOTE = ('Partial: np.linalg.lstsq returning a solution of the normal equations is a contract (re-solved independently by the oracle); '
+              'higher-order DispersiveTilt (scipy leastsq/quad) is oracle-only; list aliasing / reuse of wavefronts (Field.__mul__, '
+              'TiltInterface.multiply) is covered by correspondence + oracle (tilt lists are values in the model). '
               'Trusted: Lean kernel, generator coverage, NumPy einsum/lstsq as modelled.')
 TECHNIQUE = 'Lean 4 proof (induction over tilt lists / histories, ring, Real.sqrt) over hand model with differential correspondence at Float'
-GEN = ['Extent', 'Window']
+GEN = ['Extent', 'Window', 'PropagateMeta', 'TiltFit']
 OPS = ['C02', 'C04']
 RULE = ('cases: (shift) lists of 1..4 angular / first-order dispersive / higher-order dispersive elements, all orderings, per-axis du, os 1..4; '
         '(fit) planes 2..7 x 2..7 with 1..3 segments, per-axis pixelscale, OPD = ramp + random, second fit after an OPD update; '
@@ -34,15 +36,19 @@ RULE = ('cases: (shift) lists of 1..4 angular / first-order dispersive / higher-
         '(equiv) pupils with tilt 0.01 px .. beyond the output expressed as OPD ramp / Tilt plane / Wavefront(tilt) / fit_tilt / '
         'several elements in different orders, segmented apertures with per-segment tilts, non-square output pixels, os 1..3. '
         'distinct = (kind, shapes, element kinds, order, sampling class); non-trivial = everything but a single zero tilt')
-TRUSTED = ['np.linalg.lstsq returns a least-squares solution (contract; oracle re-solves the normal equations independently)',
-           'np.einsum / broadcasting as modelled in Model/Tilt.lean; propagate_dft as modelled for C02']
+TRUSTED = ['np.linalg.lstsq returns a solution of the normal equations of the masked basis (contract; hypothesis hN of fit_tilt_is_least_squares; the oracle re-solves them)',
+           'np.einsum / reshape / broadcasting as modelled in Model/Tilt.lean; propagate_dft as modelled for C02']
 UNPROVEN = ['higher-order DispersiveTilt trace/dispersion (scipy.optimize.leastsq, scipy.integrate.quad): oracle residual checks only',
             'lstsq solves the normal equations: contract, checked numerically',
-            'end-to-end sample equality of the propagated representations: composition of tilt_ramp_equiv with C02 (oracle-checked)']
+            'tilt-list sharing between products (aliasing) and Plane.copy in fit_tilt(inplace=False): correspondence + oracle']
 ASSUMPTIONS = ['binary masks, pairwise disjoint segments; least-squares uniqueness checked only when a segment has 3 non-collinear pixels',
                'generated tilt shifts keep a fractional part in [0.05,0.95] so that np.fix is insensitive to rounding']
 
-WL, Z = P.WL, P.Z
+WL, Z = P.WL, P.Z      # current case's base wavelength / focal length (set per case by `_use`)
+
+def _use(c):
+    global WL, Z
+    WL = c.get('WL', P.WL); Z = c.get('Z', P.Z)
 
 # ------------------------------------------------------------------------------------------ generators
 def _el(rng, du, os_, allow_high=True):
@@ -97,7 +103,8 @@ def _gen_fit(rng):
         upd = (tx * r * px[0] - ty * c * px[1]) * (lab > 0) + rng.integers(-4, 5, (m, n)) * (WL / 64)
     return {'kind': 'fit', 'shape': [m, n], 'px': px, 'scalar_px': bool(px[0] == px[1] and rng.integers(0, 2)), 'labels': [int(x) for x in lab.ravel()],
             'nseg': nseg, 'opd': [float(x) for x in opd.ravel()], 'update': None if upd is None else [float(x) for x in upd.ravel()],
-            'inplace': bool(rng.integers(0, 2)), 'amp_scalar': bool(rng.integers(0, 3) == 0)}
+            'inplace': bool(rng.integers(0, 2)), 'amp_scalar': bool(rng.integers(0, 3) == 0),
+            'preloaded': None if rng.integers(0, 3) else [[float(rng.uniform(-2e-6, 2e-6)), float(rng.uniform(-2e-6, 2e-6))] for _ in range(nseg)]}
 
 def _gen_equiv(rng):
     m, n = int(rng.integers(2, 7)), int(rng.integers(2, 7))
@@ -162,7 +169,12 @@ def generate(rng, tier):
     out = []
     for k in range(n):
         t = k % 4
-        out.append(_gen_shift(rng) if t == 0 else _gen_fit(rng) if t == 1 else _gen_equiv(rng) if t == 2 else _gen_reuse(rng))
+        base = {'WL': float(rng.choice([5e-7, 4.25e-7, 6.5e-7, 1.1e-6])), 'Z': float(rng.choice([8.0, 2.5, 20.0, 0.75]))}
+        _use(base)
+        c = _gen_shift(rng) if t == 0 else _gen_fit(rng) if t == 1 else _gen_equiv(rng) if t == 2 else _gen_reuse(rng)
+        c.update(base)
+        out.append(c)
+    _use({})
     return out
 
 # ------------------------------------------------------------------------------------------ implementation
@@ -204,16 +216,23 @@ def _rec(p):
 def _impl_fit(c):
     import lentil
     p0 = _plane(c, c['opd'])
+    if c.get('preloaded'):
+        # the plane already carries tilt elements (one full round per segment) before the fit
+        p0.tilt = [lentil.Tilt(x=a, y=b) for a, b in c['preloaded']]
     before = np.array(p0.opd, dtype=float).copy()
+    ntilt0 = len(p0.tilt); tilt_ids0 = [id(t) for t in p0.tilt]
     p1 = p0.fit_tilt(inplace=c['inplace'])
-    res = {'opd1': [float(x) for x in np.asarray(p1.opd, float).ravel()], 'tilt1': _rec(p1), 'same_object': p1 is p0,
+    npre = ntilt0
+    orig = {'opd_unchanged': bool(np.array_equal(np.asarray(p0.opd, float), before)), 'ntilt': len(p0.tilt), 'ntilt0': ntilt0,
+            'same_elements': [id(t) for t in p0.tilt][:ntilt0] == tilt_ids0}
+    res = {'orig': orig, 'npre': npre, 'opd1': [float(x) for x in np.asarray(p1.opd, float).ravel()], 'tilt1': _rec(p1)[npre:], 'pre1': _rec(p1)[:npre], 'same_object': p1 is p0,
            'mask': [[float(x) for x in mk.ravel()] for mk in (p1.mask if c['nseg'] > 1 else [p1.mask])]}
     if c['update'] is not None:
         m, n = c['shape']
         p1.opd = p1.opd + np.array(c['update']).reshape(m, n)
         res['opd1u'] = [float(x) for x in np.asarray(p1.opd, float).ravel()]
         p2 = p1.fit_tilt(inplace=True)
-        res['opd2'] = [float(x) for x in np.asarray(p2.opd, float).ravel()]; res['tilt2'] = _rec(p2)
+        res['opd2'] = [float(x) for x in np.asarray(p2.opd, float).ravel()]; res['tilt2'] = _rec(p2)[npre:]
         p1 = p2
     # what multiply hands to the fields
     w = lentil.Wavefront(wavelength=WL) * p1
@@ -259,6 +278,16 @@ def _impl_equiv(c):
     pf = mk(total).fit_tilt()
     reps['fit'] = _prop(c, lentil.Wavefront(WL) * pf, c['prop_shape'])
     reps['fit']['recorded'] = _rec(pf)
+    if nseg > 1:
+        # per-segment fitted tilts followed by a COMMON Tilt plane, versus everything written into the OPD
+        cpx = [0.5 * c['tilt_px'][0][0] + 0.37, -0.5 * c['tilt_px'][0][1] - 0.61]
+        thx, thy = _angles(c, cpx)
+        r = np.arange(m)[:, None] - m // 2; cc = np.arange(n)[None, :] - n // 2
+        common = (thx * r * c['dx'][0] - thy * cc * c['dx'][1]) * (lab > 0)
+        pair = {'ref': _prop(c, lentil.Wavefront(WL) * mk(total + common), None),
+                'got': _prop(c, lentil.Wavefront(WL) * mk(total).fit_tilt() * lentil.Tilt(x=thx, y=thy), c['prop_shape'])}
+    else:
+        pair = None
     if nseg == 1:
         thx, thy = _angles(c, c['tilt_px'][0])
         reps['plane'] = _prop(c, lentil.Wavefront(WL) * mk(base) * lentil.Tilt(x=thx, y=thy), c['prop_shape'])
@@ -272,7 +301,7 @@ def _impl_equiv(c):
         # half in the OPD, half as metadata
         half = base + 0.5 * _ramp(c, 0) * (lab > 0)
         reps['half'] = _prop(c, lentil.Wavefront(WL) * mk(half) * lentil.Tilt(x=0.5 * thx, y=0.5 * thy), c['prop_shape'])
-    return {'reps': reps, 'insum': float(np.sum(np.abs(amp * (lab > 0))))}
+    return {'reps': reps, 'pair': pair, 'insum': float(np.sum(np.abs(amp * (lab > 0))))}
 
 def _impl_reuse(c):
     import lentil
@@ -307,6 +336,7 @@ def _impl_reuse(c):
 
 def impl(c):
     vlib.import_lentil()
+    _use(c)
     try:
         if c['kind'] == 'shift': return _impl_shift(c)
         if c['kind'] == 'fit': return _impl_fit(c)
@@ -321,17 +351,26 @@ def _tj(e):
     return {'k': 'd', 'trace': vlib.fl(e['trace']), 'disp': vlib.fl(e['disp'])}
 
 def requests(c, io):
+    _use(c)
     if 'exc' in io: return []
     if c['kind'] == 'shift':
         if any(e['k'] == 'dh' for e in c['tilts']): return []
         return [{'op': 'c04.shift', 'tilts': [_tj(e) for e in c['tilts']], 'z': vlib.fbits(Z), 'wl': vlib.fbits(c['wl']), 'du': vlib.fl(c['du']), 'os': c['os']}]
     if c['kind'] == 'fit':
+        m_, n_ = c['shape']
+        def seg_t(opd, masks, rec):
+            out = []
+            for mk, t in zip(masks, rec):
+                mka = np.array(mk).reshape(m_, n_)
+                t0 = float(_lsq(c, np.array(opd).reshape(m_, n_), mka)[0]) if _mask_ok(mka) else 0.0
+                out.append({'mask': vlib.fl(mk), 't': vlib.fl([t0, t[0], t[1]])})
+            return out
         rq = [{'op': 'c04.fit', 'shape': c['shape'], 'px': vlib.fl(c['px']), 'opd': vlib.fl(c['opd']),
-               'segs': [{'mask': vlib.fl(mk), 't': vlib.fl(t)} for mk, t in zip(io['mask'], io['tilt1'])]}]
+               'segs': seg_t(c['opd'], io['mask'], io['tilt1'])}]
         if c['update'] is not None:
             k = c['nseg']
             rq.append({'op': 'c04.fit', 'shape': c['shape'], 'px': vlib.fl(c['px']), 'opd': vlib.fl(io['opd1u']),
-                       'segs': [{'mask': vlib.fl(mk), 't': vlib.fl(t)} for mk, t in zip(io['mask'], io['tilt2'][k:])]})
+                       'segs': seg_t(io['opd1u'], io['mask'], io['tilt2'][k:])})
         return rq
     if c['kind'] == 'reuse':
         if c['base_kind'] == 'fit' or not io['shift0']: return []
@@ -353,19 +392,23 @@ def _close(a, b, scale, rel=1e-11):
     return all(abs(x - y) <= rel * (scale + abs(y)) for x, y in zip(a, b))
 
 def compare(c, io, mo):
+    _use(c)
     if 'exc' in io: return f"implementation raised {io['exc']}: {io.get('msg')}"
     for m in mo:
         if not m.get('ok'): return f"model refused: {m.get('err')}"
     if c['kind'] == 'shift':
         if not mo: return None
         m = mo[0]
-        sc = max(1e-3, max(abs(v) for v in io['ij']))
-        if not _close(io['ij'], vlib.unfl(m['ij']), sc): return f"Field.shift ij: impl {io['ij']} model {vlib.unfl(m['ij'])}"
-        if not _close(io['xy'], vlib.unfl(m['xy']), sc): return f"Field.shift xy: impl {io['xy']} model {vlib.unfl(m['xy'])}"
+        # relative to the size of the components that are summed (cancellation between large elements is harmless)
+        sc = max(1e-3, sum(abs(v) for e in io['each_ij'] for v in e))
+        if not _close(io['ij'], vlib.unfl(m['ij']), sc, 1e-9): return f"Field.shift ij: impl {io['ij']} model {vlib.unfl(m['ij'])}"
+        if not _close(io['xy'], vlib.unfl(m['xy']), sc, 1e-9): return f"Field.shift xy: impl {io['xy']} model {vlib.unfl(m['xy'])}"
         return None
     if c['kind'] == 'fit':
         sc = max(abs(v) for v in c['opd']) + 1e-12
         if not _close(io['opd1'], vlib.unfl(mo[0]['opd']), sc, 1e-10): return 'opd after fit_tilt differs from the model (given the recorded coefficients)'
+        for k, (rec, mrec) in enumerate(zip(io['tilt1'], mo[0]['recorded'])):
+            if list(rec) != vlib.unfl(mrec): return f"segment {k}: recorded Tilt(x, y) = {rec}, model records {vlib.unfl(mrec)} for the same coefficients"
         if c['update'] is not None:
             if len(io['tilt2']) != 2 * c['nseg']: return f"{len(io['tilt2'])} tilts recorded after the second fit, expected {2 * c['nseg']}"
             if io['tilt2'][:c['nseg']] != io['tilt1']: return 'first recorded tilts changed by the second fit'
@@ -447,6 +490,13 @@ def _oracle_fit(c, io):
     before = np.array(c['opd']).reshape(m, n)
     masks = [np.array(mk).reshape(m, n) for mk in io['mask']]
     sc = float(np.max(np.abs(before))) + 1e-12
+    og = io['orig']
+    if not c['inplace']:
+        if not og['opd_unchanged']: return 'fit_tilt(inplace=False) changed the OPD of the original plane'
+        if og['ntilt'] != og['ntilt0'] or not og['same_elements']:
+            return f"fit_tilt(inplace=False) changed the tilt list of the original plane ({og['ntilt0']} -> {og['ntilt']} elements)"
+    pre = c.get('preloaded') or []
+    if [list(t) for t in io['pre1']] != [list(t) for t in pre]: return f"tilt elements the plane carried before the fit were altered: {io['pre1']} vs {pre}"
     if io['same_object'] != c['inplace']: return f"inplace={c['inplace']} but returned object is{' ' if io['same_object'] else ' not '}the original"
     if len(io['tilt1']) != c['nseg']: return f"{len(io['tilt1'])} tilts recorded, {c['nseg']} segments"
     def check(before, after, rec, what):
@@ -476,10 +526,11 @@ def _oracle_fit(c, io):
         if r: return r
         rec_tot = [[a[0] + b[0], a[1] + b[1]] for a, b in zip(io['tilt1'], io['tilt2'][k:])]
     # multiply hands every recorded tilt of a segment to that segment's field
-    nfit = 2 if c['update'] is not None else 1
+    nfit = (2 if c['update'] is not None else 1) + (1 if pre else 0)
+    if pre: rec_tot = [[a[0] + b[0], a[1] + b[1]] for a, b in zip(rec_tot, pre)]
     if len(io['field_shift']) == c['nseg']:
         for k in range(c['nseg']):
-            if io['field_ntilt'][k] != nfit: return f"field of segment {k} carries {io['field_ntilt'][k]} tilt elements after {nfit} fit(s)"
+            if io['field_ntilt'][k] != nfit: return f"field of segment {k} carries {io['field_ntilt'][k]} tilt elements, the plane recorded {nfit} for it"
             want = [Z * rec_tot[k][0] / 3e-5 * 2, -Z * rec_tot[k][1] / 5e-5 * 2]
             if not _close(io['field_shift'][k], want, max(1e-3, abs(want[0]), abs(want[1])), 1e-9):
                 return f"segment {k}: field shift {io['field_shift'][k]} is not that of the sum of its recorded tilts {want}"
@@ -509,6 +560,15 @@ def _oracle_equiv(c, io):
                 k = np.argwhere((np.abs(f - ref) > tol) & w)[0]
                 return (f"representation '{name}' differs from the OPD-ramp representation at sample ({k[0]},{k[1]}): {f[k[0], k[1]]:.6g} vs "
                         f"{ref[k[0], k[1]]:.6g} (tilt {c['tilt_px']} px, max error {d.max():.3e})")
+    if io.get('pair'):
+        g, rf = io['pair']['got'], io['pair']['ref']
+        w = window(g) & window(rf)
+        if w.any():
+            d = np.abs(fld(g) - fld(rf))
+            if d[w].max() > tol:
+                k = np.argwhere((d > tol) & w)[0]
+                return (f"segmented aperture: fitted per-segment tilts + common Tilt plane differ from the all-in-OPD representation at sample "
+                        f"({k[0]},{k[1]}): {fld(g)[k[0], k[1]]:.6g} vs {fld(rf)[k[0], k[1]]:.6g} (max error {d[w].max():.3e})")
     # direction and per-axis pixel size: the shift handed to the propagation for a Tilt plane / wavefront tilt
     if c['nseg'] == 1:
         want = list(c['tilt_px'][0])
@@ -554,6 +614,7 @@ def _oracle_reuse(c, io):
     return None
 
 def oracle(c, io):
+    _use(c)
     if 'exc' in io: return f"raised {io['exc']}: {io.get('msg')}"
     if c['kind'] == 'reuse': return _oracle_reuse(c, io)
     if c['kind'] == 'shift': return _oracle_shift(c, io)
@@ -564,7 +625,7 @@ def oracle(c, io):
 def signature(c):
     if c['kind'] == 'shift': return f"shift {[e['k'] for e in c['tilts']]} perm={c['perm']} os={c['os']} du={c['du'][0]:.4g},{c['du'][1]:.4g}"
     if c['kind'] == 'reuse': return f"reuse {c['base_kind']} {c['shape']} S={c['out_shape']} os={c['os']} base={[round(v, 2) for v in c['tilt_px'][0]]} scan={[[round(v, 2) for v in t] for t in c['scan']]}"
-    if c['kind'] == 'fit': return f"fit {c['shape']} nseg={c['nseg']} px={c['px']} upd={c['update'] is not None} lab={c['labels'][:12]} opd0={c['opd'][0]:.4g}"
+    if c['kind'] == 'fit': return f"fit pre={c.get('preloaded') is not None} inpl={c['inplace']} {c['shape']} nseg={c['nseg']} px={c['px']} upd={c['update'] is not None} lab={c['labels'][:12]} opd0={c['opd'][0]:.4g}"
     return f"equiv {c['shape']} nseg={c['nseg']} S={c['out_shape']} os={c['os']} tilt={[[round(v, 2) for v in t] for t in c['tilt_px']]} ps={c['prop_shape']}"
 
 def nontrivial(c):
@@ -583,6 +644,8 @@ def tags(c):
     elif c['kind'] == 'fit':
         t.append(f"nseg={c['nseg']}")
         if c['update'] is not None: t.append('second-fit')
+        if c.get('preloaded'): t.append('preloaded-tilt')
+        t.append('inplace' if c['inplace'] else 'copy')
         if c['px'][0] != c['px'][1]: t.append('px:per-axis')
     else:
         t.append(f"nseg={c['nseg']}")
